@@ -204,7 +204,7 @@ def drop_close(ctx):
         for bi, t, c in d.calls():
             if c.is_('WorkStealingQueue::close'):
                 close_blocks.append(bi)
-            if c.is_(*ATOMIC_WRITES) and c.name == 'store':
+            if c.is_(*ATOMIC_WRITES) and c.name in ('store', 'swap', 'fetch_or'):
                 v = prov.operand(t['args'][1])
                 fld = outer_field(prov.operand(t['args'][0]))
                 if v[0] == 'const' and v[2] == 1 and fld and fld[0] == tn:
@@ -505,3 +505,220 @@ def errchk_before_block(ctx):
                               'in its loop: a worker failure is not reported before the coordinator blocks')
 
 
+
+
+@rule('CV-NOTIFY', ['C10'], floor=2)
+def cv_notify(ctx):
+    """Every change of a condvar predicate is announced: after a store to a predicate atomic (e.g.
+    `closed`) every path to the function's return passes notify_all on the paired condvar (all
+    waiters must re-test), and after an item is pushed into the guarded queue every path passes
+    notify_one/notify_all."""
+    F = ctx.facts
+    sites = list(wait_sites(F))
+    if not sites:
+        return ctx.anchor_missing('Condvar::wait call site')
+    for f, bi, t, c in sites:
+        prov = Prov(f)
+        cv = outer_field(prov.operand(t['args'][0]))
+        ls = LockSets(f)
+        gl = op_local(t['args'][1]) if len(t['args']) > 1 else None
+        mutex = ls.at_term.get(bi, {}).get(gl, (None, None))[1]
+        if cv is None or mutex is None:
+            continue
+        loops = [(h, body) for h, body in f.loops().items() if bi in body]
+        if not loops:
+            continue
+        h, body = min(loops, key=lambda x: len(x[1]))
+        preds = set()
+        for b2 in body:
+            c2 = callee_of(f.blocks[b2]['term'])
+            if c2 and Callee(c2).is_(*ATOMIC_READS):
+                fld = outer_field(prov.operand(f.blocks[b2]['term']['args'][0]))
+                if fld:
+                    preds.add(fld)
+        for g in F.fns:
+            pg = None
+            for b3, t3, c3 in g.calls():
+                kind = None
+                if c3.is_(*ATOMIC_WRITES):
+                    pg = pg or Prov(g)
+                    if outer_field(pg.operand(t3['args'][0])) in preds:
+                        kind = 'flag'
+                elif c3.is_('VecDeque::push_back', 'VecDeque::push_front', 'VecDeque::extend'):
+                    lsg = LockSets(g)
+                    if mutex in lsg.held_at_term(b3):
+                        kind = 'item'
+                if not kind:
+                    continue
+                want = ('Condvar::notify_all',) if kind == 'flag' else ('Condvar::notify_all', 'Condvar::notify_one')
+                pg = pg or Prov(g)
+                nb = {b for b, tt, cc in g.calls() if cc.is_(*want) and outer_field(pg.operand(tt['args'][0])) == cv}
+                region = g.reach_from(g.succs(b3), stop=nb)
+                leaks = [b for b in region if g.blocks[b]['term']['k'] == 'return']
+                key = '%s:%s-change-notified' % (g.key, kind)
+                if nb and not leaks:
+                    ctx.ok(key, g.loc(b3), 'every path from the %s change to return passes %s on %s.%s' % (kind, '/'.join(last_seg(w) for w in want), cv[0], cv[1]))
+                else:
+                    ctx.violation(key, g.loc(b3), 'a %s change that waiters in %s test is not followed by %s on every path: workers '
+                                  'already waiting on the condvar are never woken and block forever' % (
+                                      'closed-flag' if kind == 'flag' else 'queue', f.key, ' or '.join(last_seg(w) for w in want)))
+
+
+def _error_variant(F, f):
+    """Index of the state variant whose match arm returns Err without blocking (the 'Error' state)."""
+    prov = Prov(f)
+    for sb in f.reachable:
+        t = f.blocks[sb]['term']
+        if t['k'] != 'switch':
+            continue
+        dl = op_local(t['discr'])
+        if dl is None:
+            continue
+        dd = f.whole_defs(dl)
+        if len(dd) != 1 or dd[0][2] != 'assign' or dd[0][3]['rv']['r'] != 'discr':
+            continue
+        p = dd[0][3]['rv']['p']
+        if not (p['l'] == 1 and 'State' in p['ty']):
+            continue
+        for v, tgt in t['arms']:
+            region = {b for b in f.reach_from([tgt]) if f.dominates(tgt, b)}
+            has_recv = any((callee_of(f.blocks[b]['term']) or {}).get('name') in ('recv', 'try_recv') for b in region)
+            has_err = any(s['k'] == 'assign' and s['lhs']['l'] == 0 and s['rv']['r'] == 'agg' and s['rv'].get('variant_name') == 'Err'
+                          for b in region for s in f.blocks[b]['stmts'])
+            has_ok = any(s['k'] == 'assign' and s['lhs']['l'] == 0 and s['rv']['r'] == 'agg' and s['rv'].get('variant_name') == 'Ok'
+                         for b in region for s in f.blocks[b]['stmts'])
+            if has_err and not has_recv and not has_ok:
+                return int(v), last_seg(p['ty'])
+    return None, None
+
+
+@rule('ERR-STICKY', ['C09'], floor=4)
+def err_sticky(ctx):
+    """A worker failure stays reported: when a coordinator takes the error out of the shared store
+    and returns it, it first moves its own state to the error state, so that later calls fail at
+    once instead of dispatching to dead workers and blocking in recv()."""
+    F = ctx.facts
+    cs = coordinator_fns(F)
+    if not cs:
+        return ctx.anchor_missing('coordinator functions')
+    for f, recvs in cs:
+        ev, sty = _error_variant(F, f)
+        if ev is None:
+            ctx.violation('%s:no-error-state' % f.key, f.loc(0), 'cannot find a non-blocking error state arm (fail closed)')
+            continue
+        prov = Prov(f)
+        loops = f.loops()
+        for bi, t, c in f.calls():
+            if not c.is_('Option::take'):
+                continue
+            # only the loop-top check: a take whose Some edge returns Err(payload)
+            inner = [(h, b) for h, b in loops.items() if bi in b]
+            if not inner:
+                continue
+            dest = t['dest']['l']
+            some_t = []
+            for sb in f.reachable:
+                tt = f.blocks[sb]['term']
+                if tt['k'] != 'switch':
+                    continue
+                dl = op_local(tt['discr'])
+                dd = f.whole_defs(dl) if dl is not None else []
+                if len(dd) == 1 and dd[0][2] == 'assign' and dd[0][3]['rv']['r'] == 'discr' and dd[0][3]['rv']['p']['l'] == dest:
+                    for v, tgt in tt['arms']:
+                        if v == '1':
+                            some_t.append(tgt)
+            if not some_t:
+                continue
+            # stores of the error variant to self.state
+            errst = set()
+            adt = [a for p, a in F.adts.items() if last_seg(p) == sty and a['kind'] == 'enum' and p.rsplit('::', 1)[0] in f.path]
+            vname = None
+            for a in adt or [a for p, a in F.adts.items() if last_seg(p) == sty]:
+                for v in a['variants']:
+                    if v['idx'] == ev:
+                        vname = v['name']
+            for b2, si, name, rv in self_field_stores(f):
+                e = prov.rvalue(rv, 0, '%d:%d' % (b2, si))
+                if e[0] == 'agg' and str(e[1]) == 'adt:%s::%s' % (sty, vname):
+                    errst.add(b2)
+            region = f.reach_from(some_t, stop=errst)
+            leaks = [b for b in region if f.blocks[b]['term']['k'] == 'return']
+            key = '%s:taken-error-is-sticky' % f.key
+            if errst and not leaks:
+                ctx.ok(key, f.loc(bi), 'the Some edge of error_store.take() sets the error state before returning Err')
+            else:
+                ctx.violation(key, f.loc(bi), 'the error taken from the shared store is returned without moving the coordinator to '
+                              'its error state: the next call finds an empty store and a live state, dispatches to dead workers '
+                              'and blocks in recv() forever')
+            break
+
+
+from rules.units import self_field_stores  # noqa: E402
+
+
+@rule('EOF-MEANS-END', ['C09', 'C05'], floor=4)
+def eof_means_end(ctx):
+    """A reader that pulls from successive units never forwards a unit's zero count as its own
+    result: `Ok(n)` with n the count of the current unit's read is only returned under n > 0 (a zero
+    would tell the caller the stream ended while later units or a stored error are pending)."""
+    from rules.io import is_trait_call, READ_TRAITS, value_closure
+    F = ctx.facts
+    n_inst = 0
+    for adt in ('LZMA2ReaderMT', 'LZIPReaderMT', 'LZIPReader', 'XZReader'):
+        fs = [f for f in F.fns if f.self_adt and last_seg(f.self_adt) == adt and f.impl and last_seg(f.impl.get('trait')) == 'Read' and f.name == 'read']
+        if not fs:
+            ctx.anchor_missing('<%s as Read>::read' % adt)
+            continue
+        f = fs[0]
+        prov = Prov(f)
+        for rb, rt, rc in f.calls():
+            if not is_trait_call(rc, READ_TRAITS, 'read') or rt['dest']['p']:
+                continue
+            recv = prov.operand(rt['args'][0], 0, '%d:T' % rb)
+            if recv[0] == 'param':
+                continue  # recursion on self: not a unit read
+            clo = value_closure(f, {rt['dest']['l']})
+            nl = {l for l in clo if f.local_ty(l) == 'usize'}
+            tail = 0 in clo  # the Result itself is returned
+            n_inst += 1
+            key = '%s:zero-count-not-forwarded' % f.key
+            if tail:
+                ctx.violation(key, f.loc(rb), 'the result of the current unit\'s read is returned as is: a zero count (unit '
+                              'exhausted, or an empty placeholder posted by a failing worker) reaches the caller as end of '
+                              'stream although more units or a stored error are pending')
+                continue
+            bad = None
+            for bi, b in enumerate(f.blocks):
+                if b['cleanup']:
+                    continue
+                for si, s in enumerate(b['stmts']):
+                    if s['k'] != 'assign' or s['lhs']['l'] != 0 or s['rv']['r'] != 'agg' or s['rv'].get('variant_name') != 'Ok':
+                        continue
+                    ol = op_local(s['rv']['ops'][0])
+                    pl = op_place(s['rv']['ops'][0])
+                    if ol not in nl and not (pl and pl['l'] in clo and pl['p']):
+                        continue
+                    # guarded by n > 0 / n != 0 / non-zero arm of a switch on n
+                    good = False
+                    for sblk, pol, cond in guards_of(f, bi, prov):
+                        nc = norm_cmp(cond, pol) if cond[0] in ('bin', 'un') else None
+                        if nc and nc[0] in ('Lt', 'Ne') and any(x[0] == 'const' and x[2] == 0 for x in (nc[1], nc[2])):
+                            good = True
+                    # match arm on the payload: reached via a non-zero arm
+                    for sb in f.reachable:
+                        tt = f.blocks[sb]['term']
+                        if tt['k'] == 'switch':
+                            p = op_place(tt['discr'])
+                            if p is not None and p['l'] in clo and p['ty'] == 'usize' and any(a[0] == '0' for a in tt['arms']):
+                                zero_t = [a[1] for a in tt['arms'] if a[0] == '0'][0]
+                                from lzlint.core import reachable_without_edge
+                                if not reachable_without_edge(f, bi, (sb, tt['otherwise'])) and tt['otherwise'] != zero_t:
+                                    good = True
+                    if not good:
+                        bad = (bi, si)
+            if bad:
+                ctx.violation(key, f.loc(*bad), 'a count that may be zero is returned from a unit read without a `> 0` guard')
+            else:
+                ctx.ok(key, f.loc(rb), 'the unit read count is only returned under n > 0; zero falls through to the next unit / end handling')
+    if n_inst == 0:
+        ctx.anchor_missing('unit reads in container/MT readers')
